@@ -121,15 +121,15 @@ def case_rvec(log, order, M, is_exact):
     log.path_stats(pm)
 
 
-def case_qed_step(log, order, dim):
-    """one step of the QED iterate along symbolic RG trajectories."""
+def case_qed_step(log, order, dim, steps=1):
+    """`steps` steps of the QED iterate along symbolic RG trajectories."""
     sq = sym_module("eko.kernels.singlet_qed")
     vq = sym_module("eko.kernels.valence_qed")
     from eko.kernels import EvoMethods
 
     log.encode(sq.eko_iterate, vq.dispatcher, sq.dispatcher)
     oq, oe = order
-    rp = (MOD, "replay_qed", {"order": list(order), "dim": dim})
+    rp = (MOD, "replay_qed", {"order": list(order), "dim": dim, "steps": steps})
 
     def run():
         jetmod.set_cap(5)
@@ -172,18 +172,18 @@ def case_qed_step(log, order, dim):
                 p = p * s
             return tot
 
-        # mu^2 midpoint: t_half = ln((1+e^h)/2) = h/2 + h^2/8 - h^4/192 ...
+        # mu^2 midpoint of a step of length h: ln((1+e^h)/2) = h/2 + h^2/8 - h^4/192 ... after the step start
         t_half = ((1 + h.exp()) / 2).log()
-        ah, al = at(a_s, h), Jet.lift(a0)
-        as_half, aem_half = at(a_s, t_half), at(a_e, t_half)
+        as_list = [Jet.lift(a0)] + [at(a_s, h * k) for k in range(1, steps + 1)]
         G = realnp.empty((oq + 1, oe + 1, dim, dim), dtype=object)
         for i in range(oq + 1):
             for j in range(oe + 1):
                 for k in range(dim):
                     for l in range(dim):
                         G[i, j, k, l] = SR.var("G%d%d_%d%d" % (i, j, k, l)) if (i, j) != (0, 0) else SR(0)
-        a_half = realnp.empty((1, 2), dtype=object)
-        a_half[0, 0], a_half[0, 1] = as_half, aem_half
+        a_half = realnp.empty((steps, 2), dtype=object)
+        for k in range(steps):
+            a_half[k, 0], a_half[k, 1] = at(a_s, h * k + t_half), at(a_e, h * k + t_half)
 
         class Beta:
             @staticmethod
@@ -197,9 +197,9 @@ def case_qed_step(log, order, dim):
         sq.beta = Beta()
         try:
             if dim == 4:
-                E = sq.dispatcher(order, EvoMethods.ITERATE_EXACT, G, [al, ah], a_half, SR.var("nf"), 1, (1, 0))
+                E = sq.dispatcher(order, EvoMethods.ITERATE_EXACT, G, as_list, a_half, SR.var("nf"), steps, (1, 0))
             else:
-                E = vq.dispatcher(order, EvoMethods.ITERATE_EXACT, G, [al, ah], a_half, SR.var("nf"), 1, (1, 0))
+                E = vq.dispatcher(order, EvoMethods.ITERATE_EXACT, G, as_list, a_half, SR.var("nf"), steps, (1, 0))
         finally:
             sq.ad, sq.beta = saved_ad, saved_beta
         # exact: dE/ds = -gamma(a(s), e(s)) E  (ds = d ln mu^2;  sign: da/dt = -beta  and the kernel integrates gamma/beta da)
@@ -207,12 +207,12 @@ def case_qed_step(log, order, dim):
         for k in range(dim):
             for l in range(dim):
                 N[k, l] = -sum(G[i, j, k, l] * a_s**i * a_e**j for i in range(oq + 1) for j in range(oe + 1))
-        Eex_s = ode_series(N, dim)  # as jets in elapsed t; evaluate at s = h (same formal parameter)
+        Eex_s = ode_series(N, dim)  # as jets in elapsed t; evaluated at the end of the last step
         for k in range(dim):
             for l in range(dim):
-                d = as_jet(E[k, l]) - Eex_s[k, l]
+                d = as_jet(E[k, l]) - (Eex_s[k, l] if steps == 1 else at(Eex_s[k, l], h * steps))
                 for m, c in residual_coeffs(d, 3):
-                    v = prove_zero(c, "QED iterate step (order %r, dim %d): [%d,%d] h^%d coefficient of (step - path-ordered)" % (order, dim, k, l, m), timeout_ms=60000)
+                    v = prove_zero(c, "QED iterate %d step(s) (order %r, dim %d): [%d,%d] h^%d coefficient of (kernel - path-ordered)" % (steps, order, dim, k, l, m), timeout_ms=60000)
                     log.decide(v, key="singlet_qed.eko_iterate:dim%d:local-order" % dim, replay=rp, sampler=_sampler)
         log.twin("domain")
         log.collect_ctx()
@@ -324,7 +324,7 @@ def replay_rvec(point, order, M, is_exact):
     return None
 
 
-def replay_qed(point, order, dim):
+def replay_qed(point, order, dim, steps=1):
     """one QED step vs numerically integrated path-ordered solution along numerically integrated couplings."""
     import math
     import numpy as np
@@ -352,19 +352,18 @@ def replay_qed(point, order, dim):
     errs = []
     for h in hs:
         th = math.log((1 + math.exp(h)) / 2)
-        sol = solve_ivp(rge, (0, h), [a0, e0], rtol=1e-12, atol=1e-15, dense_output=True, method="DOP853")
-        ah, _eh = sol.sol(h)
-        a_half = np.array([sol.sol(th)])
-        as_list = np.array([a0, ah])
+        sol = solve_ivp(rge, (0, h * steps), [a0, e0], rtol=1e-12, atol=1e-15, dense_output=True, method="DOP853")
+        a_half = np.array([sol.sol(h * k + th) for k in range(steps)])
+        as_list = np.array([sol.sol(h * k)[0] for k in range(steps + 1)])
 
         def ode(t, y):
             a, e = sol.sol(t)
             gm = sum(G[i, j] * a**i * e**j for i in range(oq + 1) for j in range(oe + 1))
             return (-(gm @ y.reshape(dim, dim))).reshape(-1)
 
-        ref = solve_ivp(ode, (0, h), np.eye(dim, dtype=complex).reshape(-1), rtol=1e-12, atol=1e-14, method="DOP853").y[:, -1].reshape(dim, dim)
+        ref = solve_ivp(ode, (0, h * steps), np.eye(dim, dtype=complex).reshape(-1), rtol=1e-12, atol=1e-14, method="DOP853").y[:, -1].reshape(dim, dim)
         mod = sq if dim == 4 else vq
-        got = np.array(mod.dispatcher(tuple(order), EvoMethods.ITERATE_EXACT, G, as_list, a_half, nf, 1, (1, 0)), dtype=complex)
+        got = np.array(mod.dispatcher(tuple(order), EvoMethods.ITERATE_EXACT, G, as_list, a_half, nf, steps, (1, 0)), dtype=complex)
         errs.append(float(np.abs(got - ref).max()))
     pairs = [(e, x) for e, x in zip(hs, errs) if x > 1e-12]
     if len(pairs) < 2:
@@ -399,6 +398,10 @@ def main():
     for od in ([(1, 1), (2, 1)] if not thorough else [(1, 1), (2, 1), (2, 2), (3, 2)]):
         for dim in (2, 4):
             chk.case("qed.step.o%d%d.dim%d" % (od[0], od[1], dim), case_qed_step, order=od, dim=dim)
+    # two steps: each step must use its own half-step couplings (running alpha_em) and its own interval
+    chk.case("qed.2steps.o11.dim2", case_qed_step, order=(1, 1), dim=2, steps=2)
+    if thorough:
+        chk.case("qed.2steps.o21.dim4", case_qed_step, order=(2, 1), dim=4, steps=2)
     return chk.run()
 
 
